@@ -59,7 +59,7 @@ fn run(cfg: &TrkCfg, ls: &[Vec<Det>], h: &[Call]) -> Obs {
 
 pub fn run_check(tier: Tier) -> Report {
     let rep = Report::new("C05", tier);
-    rep.set_rule("(1) every history of depth <= 3 (Sort: 3 quick / 4 thorough) over predict(scene in {0,5}, one of 7 tie-free lists) for shard counts 2..8 against the 1-shard transcript (ids included for the simple trackers), plus a contention family (two overlapping tracks, two detections that prefer the same track so that one falls back to its second choice, 4 id layouts x 30 position pairs, shards 2..5) and an expiry family (every history of <= 4 (5) operations from predict x3 / skip / wasted() / idle() containing a skip, shards 2, 3, 4, 8: more shards than tracks); (2) for Sort and VisualSort with 2 and 3 shards, IoU and Mahalanobis, histories of three calls with 2-3 detections (appearing, continuing, approaching, crossing objects; for VisualSort also three objects with mutually admissible looks under a wide visual threshold, so that appearance votes for one track arrive from several workers in schedule-dependent order; for Sort also a near tie - two assignments 1.4e-5 apart in total weight - whose rows reach the voting in schedule-dependent order): every schedule of the store workers and the caller at command granularity within each call in turn (window = one call; 3 shards: preemption bound 2 quick / 3 thorough; thorough also 4 shards at bound 2), plus a fine tier branching at every synchronisation operation with at most 2 (thorough 3) departures from the default schedule; oracle: records and the canonical store dump after every call equal the 1-shard default-schedule reference. states = executions.");
+    rep.set_rule("(1) every history of depth <= 3 (Sort: 3 quick / 4 thorough) over predict(scene in {0,5}, one of 7 tie-free lists) for shard counts 2..8 against the 1-shard transcript (ids included for the simple trackers), plus a contention family (two overlapping tracks, two detections that prefer the same track so that one falls back to its second choice, 4 id layouts x 30 position pairs, shards 2..5) and an expiry family (every history of <= 4 (5) operations from predict x3 / predict [] / skip / wasted() / idle() containing a skip or an empty frame and a listing - the idle list then holds tracks of several shards -, shards 2, 3, 4, 8: more shards than tracks); (2) for Sort and VisualSort with 2 and 3 shards, IoU and Mahalanobis, histories of three calls with 2-3 detections (appearing, continuing, approaching, crossing objects; for VisualSort also three objects with mutually admissible looks under a wide visual threshold, so that appearance votes for one track arrive from several workers in schedule-dependent order; for Sort also a near tie - two assignments 1.4e-5 apart in total weight - whose rows reach the voting in schedule-dependent order): every schedule of the store workers and the caller at command granularity within each call in turn (window = one call; 3 shards: preemption bound 2 quick / 3 thorough; thorough also 4 shards at bound 2), plus a fine tier branching at every synchronisation operation with at most 2 (thorough 3) departures from the default schedule; oracle: records and the canonical store dump after every call equal the 1-shard default-schedule reference. states = executions.");
     rep.assume("windows are joined by checked state equality: the dump after each call is identical under every schedule, so later windows are explored from the default-schedule representative");
     super::c04::run_c05_configs(&rep, tier);
 
